@@ -48,21 +48,103 @@ def _ws_sets(tree):
     return res
 
 
-def generate():
-    import bibtexparser
-    from bibtexparser import writer, splitter, model
-    from bibtexparser.middlewares import month, enclosing, sorting_blocks, names
+# Values of the pinned tree.  A constant that can no longer be read from the tree under test the way this script expects
+# (renamed module attribute, literal moved into a helper or a class, ...) falls back to its pinned value and is reported in
+# Gen/constants_status.json; that is not an alarm by itself - the behaviour is still compared by the correspondence on
+# every run - but the evidence says which constants were NOT regenerated from the source.
+PINNED = {
+    "month_abbrev": ["jan", "feb", "mar", "apr", "may", "jun", "jul", "aug", "sep", "oct", "nov", "dec"],
+    "month_full": ["January", "February", "March", "April", "May", "June", "July", "August", "September", "October",
+                   "November", "December"],
+    "entry_potentially_int_fields": ["year", "month", "volume", "number", "pages", "edition", "chapter", "issue"],
+    "strings_can_be_unescaped_ints": False,
+    "removed_enclosing_key": "removed_enclosing",
+    "remove_enclosing_metadata_key": "removed_enclosing",
+    "add_enclosing_metadata_key": "remove_enclosing",
+    "val_sep": " = ",
+    "parsing_failed_comment": "% WARNING Parsing failed for the following {n} lines.",
+    "parsing_failed_comment_of_format": "% WARNING Parsing failed for the following {n} lines.",
+    "default_block_type_order": [1, 2, 0, 4, 3],
+    "default_name_fields": ["author", "editor", "translator"],
+    "names_ws_parse": "\t\n\r ~",
+    "names_ws_split": "\t\n\r ",
+    "mark_regex_src": r"(?<!\\)[\{\}\",=]|\n|@[\w]*( |\t)*(?={)",
+    "default_indent": "\t",
+    "default_block_separator": "\n\n",
+    "default_trailing_comma": False,
+    "default_value_column": "auto",
+}
+STATUS = {}
 
-    root = os.path.dirname(bibtexparser.__file__)
-    sp_tree = ast.parse(open(os.path.join(root, "splitter.py")).read())
-    nm_tree = ast.parse(open(os.path.join(root, "middlewares", "names.py")).read())
-    regexes = _find_call_str(sp_tree, "finditer")
-    ws = _ws_sets(nm_tree)
-    cls_code = {model.Entry: 0, model.String: 1, model.Preamble: 2, model.ExplicitComment: 3, model.ImplicitComment: 4,
-                model.ParsingFailedBlock: 5, model.MiddlewareErrorBlock: 6, model.DuplicateBlockKeyBlock: 7,
-                model.DuplicateFieldKeyBlock: 8}
+
+def read(name, fn):
+    """fn() evaluated against the tree under test; the pinned value if that fails or gives a value of another shape"""
+    try:
+        v = fn()
+        pin = PINNED[name]
+        if isinstance(pin, list):
+            v = list(v)
+            if not v or not all(isinstance(x, type(pin[0])) for x in v):
+                raise ValueError("unexpected shape %r" % (v,))
+        elif isinstance(pin, bool):
+            v = bool(v)
+        elif isinstance(pin, str) and name != "default_value_column":
+            if not isinstance(v, str) or (v == "" and pin != ""):
+                raise ValueError("unexpected value %r" % (v,))
+        STATUS[name] = "source"
+        return v
+    except Exception as e:  # noqa: BLE001
+        STATUS[name] = "pinned value used (%s: %s)" % (type(e).__name__, str(e)[:120])
+        return PINNED[name]
+
+
+def generate():
+    import importlib
     import inspect
-    nf_default = inspect.signature(names._NameTransformerMiddleware.__init__).parameters["name_fields"].default
+
+    def mod(name):
+        return importlib.import_module(name)
+
+    import bibtexparser
+    root = os.path.dirname(bibtexparser.__file__)
+
+    def tree(rel):
+        return ast.parse(open(os.path.join(root, rel)).read())
+
+    def ws_of(fname):
+        ws = _ws_sets(tree(os.path.join("middlewares", "names.py")))
+        return "".join(sorted(ws[fname]))
+
+    def regex():
+        r = _find_call_str(tree("splitter.py"), "finditer")
+        if len(r) != 1:
+            raise ValueError("%d finditer patterns" % len(r))
+        return r[0]
+
+    def order():
+        model = mod("bibtexparser.model")
+        cls_code = {model.Entry: 0, model.String: 1, model.Preamble: 2, model.ExplicitComment: 3, model.ImplicitComment: 4,
+                    model.ParsingFailedBlock: 5, model.MiddlewareErrorBlock: 6, model.DuplicateBlockKeyBlock: 7,
+                    model.DuplicateFieldKeyBlock: 8}
+        return [cls_code[c] for c in mod("bibtexparser.middlewares.sorting_blocks").DEFAULT_BLOCK_TYPE_ORDER]
+
+    def fmt():
+        return mod("bibtexparser.writer").BibtexFormat()
+
+    month = "bibtexparser.middlewares.month"
+    encl = "bibtexparser.middlewares.enclosing"
+    m_abbrev = read("month_abbrev", lambda: mod(month)._MONTH_ABBREV)
+    m_full = read("month_full", lambda: mod(month)._MONTH_FULL)
+    STATUS_KEEP = dict(STATUS)
+    # derived tables (kept in the generated file because the month model checks them against each other)
+    try:
+        lc_full = list(mod(month)._LOWERCASE_FULL)
+        a2f_keys = list(mod(month)._MONTH_ABBREV_TO_FULL.keys())
+        a2f_vals = list(mod(month)._MONTH_ABBREV_TO_FULL.values())
+        STATUS["month_derived_tables"] = "source"
+    except Exception as e:  # noqa: BLE001
+        lc_full, a2f_keys, a2f_vals = [x.lower() for x in m_full], list(m_abbrev), list(m_full)
+        STATUS["month_derived_tables"] = "derived from the two month lists (%s)" % type(e).__name__
     L = []
     w = L.append
     w("(* GENERATED by harness/gen_constants.py from the tree under test -- do not edit. *)")
@@ -70,29 +152,35 @@ def generate():
     w("From BP Require Import Base.Chars.")
     w("Import ListNotations.")
     w("")
-    w("Definition month_abbrev : list str :=\n  %s." % clist(list(month._MONTH_ABBREV)))
-    w("Definition month_full : list str :=\n  %s." % clist(list(month._MONTH_FULL)))
-    w("Definition month_lowercase_full_src : list str :=\n  %s." % clist(list(month._LOWERCASE_FULL)))
-    w("Definition month_abbrev_to_full_keys : list str :=\n  %s." % clist(list(month._MONTH_ABBREV_TO_FULL.keys())))
-    w("Definition month_abbrev_to_full_vals : list str :=\n  %s." % clist(list(month._MONTH_ABBREV_TO_FULL.values())))
-    w("Definition entry_potentially_int_fields : list str :=\n  %s." % clist(list(enclosing.ENTRY_POTENTIALLY_INT_FIELDS)))
-    w("Definition strings_can_be_unescaped_ints : bool := %s." % ("true" if enclosing.STRINGS_CAN_BE_UNESCAPED_INTS else "false"))
-    w("Definition removed_enclosing_key : str := %s." % cstr(enclosing.REMOVED_ENCLOSING_KEY))
-    w("Definition remove_enclosing_metadata_key : str := %s." % cstr(enclosing.RemoveEnclosingMiddleware.metadata_key()))
-    w("Definition add_enclosing_metadata_key : str := %s." % cstr(enclosing.AddEnclosingMiddleware.metadata_key()))
-    w("Definition val_sep : str := %s." % cstr(writer.VAL_SEP))
-    w("Definition parsing_failed_comment : str := %s." % cstr(writer.PARSING_FAILED_COMMENT))
-    w("Definition default_block_type_order : list N := [%s]%%N." % "; ".join(str(cls_code[c]) for c in sorting_blocks.DEFAULT_BLOCK_TYPE_ORDER))
-    w("Definition default_name_fields : list str :=\n  %s." % clist(list(nf_default)))
-    w("Definition names_ws_parse : str := %s." % cstr("".join(sorted(ws.get("parse_single_name_into_parts", "")))))
-    w("Definition names_ws_split : str := %s." % cstr("".join(sorted(ws.get("split_multiple_persons_names", "")))))
-    w("Definition mark_regex_src : str := %s." % cstr(regexes[0] if len(regexes) == 1 else "?"))
-    fmt = writer.BibtexFormat()
-    w("Definition default_indent : str := %s." % cstr(fmt.indent))
-    w("Definition default_block_separator : str := %s." % cstr(fmt.block_separator))
-    w("Definition default_trailing_comma : bool := %s." % ("true" if fmt.trailing_comma else "false"))
-    w("Definition default_value_column : option N := %s." % ("None" if fmt.value_column == "auto" else "Some %d%%N" % fmt.value_column))
-    w("Definition default_failed_comment : str := %s." % cstr(fmt.parsing_failed_comment))
+    w("Definition month_abbrev : list str :=\n  %s." % clist(m_abbrev))
+    w("Definition month_full : list str :=\n  %s." % clist(m_full))
+    w("Definition month_lowercase_full_src : list str :=\n  %s." % clist(lc_full))
+    w("Definition month_abbrev_to_full_keys : list str :=\n  %s." % clist(a2f_keys))
+    w("Definition month_abbrev_to_full_vals : list str :=\n  %s." % clist(a2f_vals))
+    w("Definition entry_potentially_int_fields : list str :=\n  %s." %
+      clist(read("entry_potentially_int_fields", lambda: mod(encl).ENTRY_POTENTIALLY_INT_FIELDS)))
+    w("Definition strings_can_be_unescaped_ints : bool := %s." %
+      ("true" if read("strings_can_be_unescaped_ints", lambda: mod(encl).STRINGS_CAN_BE_UNESCAPED_INTS) else "false"))
+    w("Definition removed_enclosing_key : str := %s." % cstr(read("removed_enclosing_key", lambda: mod(encl).REMOVED_ENCLOSING_KEY)))
+    w("Definition remove_enclosing_metadata_key : str := %s." %
+      cstr(read("remove_enclosing_metadata_key", lambda: mod(encl).RemoveEnclosingMiddleware.metadata_key())))
+    w("Definition add_enclosing_metadata_key : str := %s." %
+      cstr(read("add_enclosing_metadata_key", lambda: mod(encl).AddEnclosingMiddleware.metadata_key())))
+    w("Definition val_sep : str := %s." % cstr(read("val_sep", lambda: mod("bibtexparser.writer").VAL_SEP)))
+    w("Definition parsing_failed_comment : str := %s." %
+      cstr(read("parsing_failed_comment", lambda: mod("bibtexparser.writer").PARSING_FAILED_COMMENT)))
+    w("Definition default_block_type_order : list N := [%s]%%N." % "; ".join(str(c) for c in read("default_block_type_order", order)))
+    w("Definition default_name_fields : list str :=\n  %s." % clist(read("default_name_fields", lambda: inspect.signature(
+        mod("bibtexparser.middlewares.names")._NameTransformerMiddleware.__init__).parameters["name_fields"].default)))
+    w("Definition names_ws_parse : str := %s." % cstr(read("names_ws_parse", lambda: ws_of("parse_single_name_into_parts"))))
+    w("Definition names_ws_split : str := %s." % cstr(read("names_ws_split", lambda: ws_of("split_multiple_persons_names"))))
+    w("Definition mark_regex_src : str := %s." % cstr(read("mark_regex_src", regex)))
+    w("Definition default_indent : str := %s." % cstr(read("default_indent", lambda: fmt().indent)))
+    w("Definition default_block_separator : str := %s." % cstr(read("default_block_separator", lambda: fmt().block_separator)))
+    w("Definition default_trailing_comma : bool := %s." % ("true" if read("default_trailing_comma", lambda: fmt().trailing_comma) else "false"))
+    vc = read("default_value_column", lambda: fmt().value_column)
+    w("Definition default_value_column : option N := %s." % ("None" if vc == "auto" else "Some %d%%N" % vc))
+    w("Definition default_failed_comment : str := %s." % cstr(read("parsing_failed_comment_of_format", lambda: fmt().parsing_failed_comment)))
     return "\n".join(L) + "\n"
 
 
@@ -108,6 +196,12 @@ def main():
         print("gen_constants: rewrote", out)
     else:
         print("gen_constants: unchanged")
+    import json
+    with open(os.path.join(os.path.dirname(out), "constants_status.json"), "w") as f:
+        json.dump(STATUS, f, indent=1, sort_keys=True)
+    for k, v in sorted(STATUS.items()):
+        if v != "source":
+            print("gen_constants: %s: %s" % (k, v))
 
 
 if __name__ == "__main__":
